@@ -208,7 +208,7 @@ Definition index_of (o : obj) (n : string) (c : aval) : res (option nat) :=
   else if String.eqb n "State" then
     match o_state o with Some _ => opt_eq_int (o_state o) c | None => Err RCrash end
   else if String.eqb n "Unique Identifier" then
-    match c with VText _ => Ok None (* compared as text by the harness only on non-matching values *) | VAsi _ _ => Err RCrash | _ => Ok None end
+    match c with VAsi _ _ => Err RCrash | _ => Ok None end   (* read-only name: the handlers never get here *)
   else Ok None.
 
 (* _set_attribute_on_managed_object, single-valued branch (the multi-valued check is repeated there) *)
@@ -412,8 +412,12 @@ Definition allowed (user : string) (o : obj) : bool :=
   String.eqb (o_policy o) "default" && String.eqb user (o_owner o).
 
 Definition find_obj (u : Z) (s : store) : option obj := find (fun o => o_uid o =? u) s.
-Definition replace_obj (u : Z) (o' : obj) (s : store) : store :=
-  map (fun x => if o_uid x =? u then o' else x) s.
+(* the row found by the primary-key query is the one written back *)
+Fixpoint replace_obj (u : Z) (o' : obj) (s : store) : store :=
+  match s with
+  | [] => []
+  | x :: t => if o_uid x =? u then o' :: t else x :: replace_obj u o' t
+  end.
 
 Definition is_set (r : areq) : bool := match r with RSet _ => true | _ => false end.
 
